@@ -210,6 +210,17 @@ theorem Between.code {P Q : Params} (hcode : Q.code = P.code) {s : St} (h : Betw
 theorem Between2.code {P Q : Params} (hcode : Q.code = P.code) {s : St} (h : Between2 S Ct P s) : Between2 S Ct Q s := by
   unfold Between2 at h ⊢; rw [entry_code hcode]; exact h
 
+/-! ## `KeysOK` decided on the code -/
+
+/-- not a call of `_index` / `getpath` -/
+def noKeyNative : Instr → Bool
+  | .callNative .index _ | .callNative .getpath _ => false
+  | _ => true
+
+theorem noKeyNative_spec {ins : Instr} (h : noKeyNative ins = true) (n : Int) :
+    ins ≠ .callNative .index n ∧ ins ≠ .callNative .getpath n := by
+  constructor <;> (intro heq; subst heq; simp [noKeyNative] at h)
+
 /-- `SafeHist2` read pointwise -/
 theorem SafeHist2.get' : ∀ {hs : List Outcome}, SafeHist2 hs → ∀ (k : Nat) (hk : k < hs.length),
     (∀ (j : Nat) (hj : j < k), Proper (hs[j]'(Nat.lt_trans hj hk))) → NoPanic hs[k]
